@@ -1,4 +1,5 @@
 import PedVerif.Gen.Subproc
+import PedVerif.Gen.SubprocModule
 /-!
 # Model of `calculate_in_subprocess` / `_inner` (pedantic/decorators/fn_deco_in_subprocess.py)
 
@@ -287,6 +288,13 @@ deriving DecidableEq, Repr
 def Loc.fresh (c : Callee) (big : Bool) : Loc := { callee := c, big := big, st := St.init, rx := none, tx := none }
 
 def G.init (cs : List (Callee × Bool)) : G := { invs := cs.map (fun c => Loc.fresh c.1 c.2), tbl := [] }
+
+/-- **a new event loop** in the same interpreter (`asyncio.run(..)` once more): its selector map is a new, empty one; the
+    invocations of the earlier loops stay what they are (finished, when the earlier `asyncio.run` has returned), the invocations
+    made in the new loop are appended.  Nothing else exists that an invocation could find: the module keeps no state
+    (`PedVerif.Gen.SubprocModule`, proved empty in Props/C17). -/
+def G.newLoop (g : G) (cs : List (Callee × Bool)) : G :=
+  { invs := g.invs ++ cs.map (fun c => Loc.fresh c.1 c.2), tbl := [] }
 
 def usedFds (invs : List Loc) : List Nat := invs.flatMap (fun l => l.rx.toList ++ l.tx.toList)
 
